@@ -149,23 +149,26 @@ def buffer_items(tier, seed):
             nm = f"buf-{kind}-D{D}-C{C}{'-jnp' if real_jnp else ''}-shard{i}of{n}"
             out.append(dict(name=nm, part="buf", kind=kind, D=D, C=C, shard=i, nshards=n, real_jnp=real_jnp, graph=graph, seed=seed, **base))
 
+    # cheap configurations first: a run that hits the wall-clock cap has still explored (and counted) complete graphs
+    small = (("ReplayBuffer", 1), ("ReplayBuffer-custom", 1), ("LAP", 2), ("LAP-cap2", 2), ("PrioritizedReplayBuffer", 2),
+             ("SubtrajectoryReplayBuffer", 2))
     if q:
-        for kind, n in (("MultiTask-SubPER", 16), ("SubtrajectoryReplayBufferPER", 8), ("SubtrajectoryReplayBufferPER-H1", 8),
-                        ("MultiTask-LAP", 3), ("LAP", 2), ("LAP-cap2", 2), ("PrioritizedReplayBuffer", 2),
-                        ("SubtrajectoryReplayBuffer", 2), ("ReplayBuffer", 1), ("ReplayBuffer-custom", 1)):
+        for kind, n in small + (("MultiTask-LAP", 3), ("SubtrajectoryReplayBufferPER", 8), ("SubtrajectoryReplayBufferPER-H1", 8),
+                                ("MultiTask-SubPER", 16)):
             add(kind, 5, 2, n)
     else:
-        # the three largest state spaces: 3-step continuations one level shallower, 2-step continuations at full depth
-        # (the shallower search is a sub-graph of the deeper one and is not added to the state count)
-        add("MultiTask-SubPER", 5, 3, 24, graph=False)
-        add("MultiTask-SubPER", 6, 2, 8)
-        add("SubtrajectoryReplayBufferPER", 6, 3, 12, graph=False)
-        add("SubtrajectoryReplayBufferPER", 7, 2, 4)
-        add("SubtrajectoryReplayBufferPER-H1", 6, 3, 8, graph=False)
-        add("SubtrajectoryReplayBufferPER-H1", 7, 2, 3)
-        for kind, n in (("MultiTask-LAP", 8), ("LAP", 2), ("LAP-cap2", 2), ("PrioritizedReplayBuffer", 2), ("SubtrajectoryReplayBuffer", 1),
-                        ("ReplayBuffer", 1), ("ReplayBuffer-custom", 1)):
+        for kind, n in small:
             add(kind, 7, 3, n)
+        # the four largest state spaces: 2-step continuations at full depth, 3-step continuations at a shallower depth
+        # (the shallower search is a sub-graph of the deeper one and is not added to the state count)
+        add("MultiTask-LAP", 7, 2, 1)
+        add("MultiTask-LAP", 6, 3, 4, graph=False)
+        add("SubtrajectoryReplayBufferPER-H1", 7, 2, 3)
+        add("SubtrajectoryReplayBufferPER-H1", 5, 3, 4, graph=False)
+        add("SubtrajectoryReplayBufferPER", 7, 2, 4)
+        add("SubtrajectoryReplayBufferPER", 6, 3, 12, graph=False)
+        add("MultiTask-SubPER", 6, 2, 8)
+        add("MultiTask-SubPER", 4, 3, 6, graph=False)
     # the same search with the real jax.numpy transfer in sample_batch (shallower: ~1 ms per sampled batch); sub-graphs as well
     for kind in BUFS:
         add(kind, 3, 1, 1, real_jnp=True, graph=False)
@@ -888,7 +891,9 @@ def _remove_stale_scratch():
 
 
 def items(tier, seed):
-    return module_items(tier, seed) + buffer_items(tier, seed)
+    b = buffer_items(tier, seed)
+    first = [i for i in b if i["kind"].startswith("ReplayBuffer") and not i["real_jnp"]]  # two sub-second items that report a graph
+    return first + module_items(tier, seed) + [i for i in b if i not in first]
 
 
 def worker_init():
